@@ -86,7 +86,7 @@ class Caller:
             return RES.get(lk.release(), 'EX')
         except TimeoutError:
             return 'TO'
-        except OSError:
+        except (OSError, KeyboardInterrupt):   # a re-raised injected fault (OSError or the BaseException flavour)
             return 'OS'
         except RuntimeError:
             return 'RT'
@@ -156,7 +156,7 @@ def run_seq(case):
                     r = locks[po].acquire(False) is True
                 except gate._Abort:
                     raise
-                except Exception:            # e.g. an injected OSError leaving acquire
+                except (Exception, KeyboardInterrupt):   # e.g. an injected fault leaving acquire
                     r = False
                 out[-1][5].append(r)
                 if r:
@@ -165,7 +165,7 @@ def run_seq(case):
                             locks[po].release()
                         except gate._Abort:
                             raise
-                        except Exception:
+                        except (Exception, KeyboardInterrupt):
                             env.kernel_mismatch.append(('probe-release-raised',))
                         next_probe(i, k + 1, f1)
                     cmd[pt] = undo
@@ -229,7 +229,7 @@ def objs_coq(objs):
 
 
 def faults_coq(faults):
-    return C.coq_list([f'({KIND_COQ[k]}, {n})' for k, n in faults])
+    return C.coq_list([f'({KIND_COQ[f[0]]}, {f[1]})' for f in faults])
 
 
 def bools_coq(bs):
